@@ -382,6 +382,13 @@ pub fn run_id_twins(args: &[String]) -> i32 {
             } else {
                 out.push(json!({"pair": "decoded/decoded", "decode_failed": true}));
             }
+            // a map keyed by both identifiers, from the spec's bytes: how many entries survive each decoder
+            let map_enc = bytes_of(&rec["map_enc"]);
+            if !map_enc.is_empty() {
+                let owned_len = erltf::decode(&map_enc).ok().and_then(|t| if let OwnedTerm::Map(m) = t { Some(m.len()) } else { None });
+                let bor_len = erltf::decode_borrowed(&map_enc).ok().map(|t| t.to_owned()).and_then(|t| if let OwnedTerm::Map(m) = t { Some(m.len()) } else { None });
+                out.push(json!({"pair": "map", "owned_entries": owned_len, "borrowed_entries": bor_len}));
+            }
             for (name, a, b) in pairs {
                 let ba = BorrowedTerm::from(&a);
                 let bb = BorrowedTerm::from(&b);
